@@ -646,6 +646,32 @@ pub fn c03_images(ctx: &Ctx, out: &mut RunOut) -> Result<(), Violation> {
         h = simcore::mix(h, simcore::fnv(&img));
         prev = img;
     }
+    // 5. a multi-revision file loaded as a plain document and saved in full
+    if n_inc > 0 && ctx.chance(W, 1, 2, "c03-flatten") {
+        let mut d3 = guarded("load_mem", || sim::load_mem(&prev))?.map_err(|e| Violation::new("load-failed", format!("load of the updated file: {e}")))?;
+        let mut m3 = model.clone();
+        m3.xref_stream = matches!(d3.reference_table.cross_reference_type, lopdf::xref::XrefType::CrossReferenceStream);
+        ctx.count("image-full-save-of-multi-revision-file");
+        let img = save(&mut d3, "full save of a loaded multi-revision file")?;
+        crate::c03::check_image(ctx, &img, &m3, None)?;
+        h = simcore::mix(h, simcore::fnv(&img));
+    }
+    // 6. the same in-memory document saved, edited, saved again
+    if ctx.chance(W, 1, 2, "c03-save-edit-save") {
+        let mut m4 = m.clone();
+        for round in 0..2 {
+            let o = MObj::Dict(vec![(b"Round".to_vec(), MObj::Int(round))]);
+            let id = d.add_object(sim::to_obj(&o));
+            if m4.objects.contains_key(&id) {
+                return Err(Violation::new("new-id-collides", format!("add_object after a save returned the existing id {id:?}")));
+            }
+            m4.objects.insert(id, o);
+            ctx.count("image-after-save-edit-save");
+            let img = save(&mut d, "save after editing an already saved document")?;
+            crate::c03::check_image(ctx, &img, &m4, None)?;
+            h = simcore::mix(h, simcore::fnv(&img));
+        }
+    }
     out.case_hash = h;
     out.nontrivial = !m.objects.is_empty();
     out.sample = format!("{} objects, xref {}, {} incremental appends, final image {} bytes", m.objects.len(), if m.xref_stream { "stream" } else { "table" }, n_inc, prev.len());
